@@ -248,11 +248,9 @@ class Prov:
                     muts.append(d)
             if upd:
                 base = ('update', base, upd)
-            if muts:
-                vias = []
-                for d in muts:
-                    vias.extend(self.borrow_uses(d))
-                base = ('mut', base, vias)
+            for d in muts:
+                path = tuple(x for x in d.path if x != '*')
+                base = ('mut', base, self.borrow_uses(d), path)
         return base
 
     def def_value(self, d, stack=()):
@@ -418,7 +416,10 @@ def project_field(v, f):
         b = project_field(base, f)
         return ('update', b, deeper) if deeper else b
     if k == 'mut':
-        return ('mut', project_field(v[1], f), v[2])
+        path = v[3] if len(v) > 3 else ()
+        if path and path[0] != f and not path[0].startswith('as ') and path[0] not in ('[]', '[..]'):
+            return project_field(v[1], f)       # the borrowed sub-place is a different field
+        return ('mut', project_field(v[1], f), v[2], path[1:] if path and path[0] == f else path)
     if k == 'phi':
         return phi([project_field(x, f) for x in v[1]])
     return ('field', v, f)
@@ -439,7 +440,9 @@ def project_variant(v, name):
         b = project_variant(base, name)
         return ('update', b, deeper) if deeper else b
     if k == 'mut':
-        return ('mut', project_variant(v[1], name), v[2])
+        path = v[3] if len(v) > 3 else ()
+        key = 'as ' + name
+        return ('mut', project_variant(v[1], name), v[2], path[1:] if path and path[0] == key else path)
     if k == 'phi':
         return phi([project_variant(x, name) for x in v[1]])
     return ('variant', v, name)
@@ -639,7 +642,7 @@ def subst(v, params, memo=None):
     elif k == 'update':
         r = ('update', subst(v[1], params, memo), {p: subst(x, params, memo) for p, x in v[2].items()})
     elif k == 'mut':
-        r = ('mut', subst(v[1], params, memo), v[2])
+        r = ('mut', subst(v[1], params, memo), v[2], v[3] if len(v) > 3 else ())
     elif k == 'phi':
         r = phi([subst(x, params, memo) for x in v[1]])
     else:
